@@ -8,7 +8,10 @@
 #include <atomic>  // the wrapper headers expect std::memory_order to be declared already
 
 #include <yaclib/fault/detail/atomic.hpp>
+#include <yaclib/fault/detail/atomic_flag.hpp>
 #include <yaclib/fault/detail/fiber/atomic.hpp>
+#include <yaclib/fault/detail/fiber/atomic_flag.hpp>
+#include <yaclib_std/atomic>
 #include <yaclib/fault/verif.hpp>
 
 #include <cinttypes>
@@ -88,7 +91,9 @@ std::string RunSeq(std::uint64_t init, const std::vector<OpIn>& ops) {
   for (auto& o : ops) {
     std::string ret = "-", exp = "-";
     using C = Conv<T>;
-    if (o.op == "load") {
+    if (o.op == "fence") {
+      yaclib_std::atomic_thread_fence(sc);
+    } else if (o.op == "load") {
       ret = Hex(C::To(a.load(sc)));
     } else if (o.op == "conv") {
       T v = a;
@@ -170,6 +175,41 @@ std::string RunSeq(std::uint64_t init, const std::vector<OpIn>& ops) {
   return out;
 }
 
+// atomic_flag: test_and_set / clear, fences in between; the current value is read by a test_and_set that is undone
+template <typename A, bool StdFence>
+std::string RunFlag(const std::vector<OpIn>& ops) {
+  A a;
+  a.clear();
+  std::string out;
+  for (auto& o : ops) {
+    std::string ret = "-";
+    if (o.op == "tas") {
+      ret = a.test_and_set() ? "1" : "0";
+    } else if (o.op == "clear") {
+      a.clear();
+    } else if (o.op == "fence") {
+      if constexpr (StdFence) {
+        std::atomic_thread_fence(std::memory_order_seq_cst);
+        std::atomic_signal_fence(std::memory_order_seq_cst);
+      } else {
+        yaclib_std::atomic_thread_fence(std::memory_order_seq_cst);
+        yaclib_std::atomic_signal_fence(std::memory_order_seq_cst);
+      }
+    } else {
+      ret = "badop";
+    }
+    const bool cur = a.test_and_set();
+    if (!cur) {
+      a.clear();
+    }
+    if (!out.empty()) {
+      out += ";";
+    }
+    out += ret + ":" + (cur ? "1" : "0") + ":-";
+  }
+  return out;
+}
+
 template <typename T>
 std::string RunBackend(const std::string& backend, std::uint64_t init, const std::vector<OpIn>& ops) {
   if (backend == "fiber") {
@@ -232,6 +272,11 @@ int AtomicMain(int, char**) {
     VRT_T("i64", std::int64_t)
     VRT_T("u64", std::uint64_t)
     VRT_T("bool", bool)
+    if (type == "flag") {
+      res = backend == "fiber"    ? RunFlag<yaclib::detail::AtomicFlag<yaclib::detail::fiber::AtomicFlag>, false>(ops)
+            : backend == "thread" ? RunFlag<yaclib::detail::AtomicFlag<std::atomic_flag>, true>(ops)
+                                  : RunFlag<std::atomic_flag, true>(ops);
+    }
     VRT_T("ptr", int*)
     VRT_T("f32", float)
     VRT_T("f64", double)
